@@ -697,6 +697,27 @@ def shard_list(items: List[Any], k: int) -> List[List[Any]]:
     return [items[i::k] for i in range(k)] if items else []
 
 
+def run_apalache(arg: Tuple[str, str, List[str], str, int]) -> Dict[str, Any]:
+    """One `apalache-mc check` invocation: (module dir, module file, extra args, tag, timeout s).  Returns the outcome
+    ('NoError' | 'Error' | 'timeout' | 'failed') and the wall time; used for inductive-invariant checks (length 0 / 1)."""
+    import shutil
+    mdir, mfile, extra, tag, tmo = arg
+    out = BUILD / "apalache" / tag
+    shutil.rmtree(out, ignore_errors=True)
+    out.mkdir(parents=True, exist_ok=True)
+    t0 = time.time()
+    try:
+        p = subprocess.run(["apalache-mc", "check", f"--out-dir={out}"] + extra + [mfile], cwd=mdir, capture_output=True, text=True, timeout=tmo)
+        txt = p.stdout + p.stderr
+        m = re.search(r"The outcome is: (\w+)", txt)
+        outcome = m.group(1) if m else "failed"
+        tail = txt[-1500:] if outcome == "failed" else ""
+    except subprocess.TimeoutExpired:
+        outcome, tail = "timeout", ""
+    shutil.rmtree(out, ignore_errors=True)
+    return {"tag": tag, "args": extra, "outcome": outcome, "wall_s": round(time.time() - t0, 1), "tail": tail}
+
+
 def pmap(func: Callable[[Any], Any], args: List[Any], procs: Optional[int] = None) -> List[Any]:
     import multiprocessing as mp
     if not args:
